@@ -46,6 +46,8 @@ type c16 struct {
 	objs    []*c16Obj
 	*c16Obj // the object the current operation addresses
 
+	shared *bytes.Buffer // the caller's reusable read buffer
+
 	sraw []byte
 	sref *wire.MsgTx
 	stx  *bchutil.Tx
@@ -223,7 +225,7 @@ func (s *c16) Gen(r *kit.Rng) (kit.Op, bool) {
 			return op, true
 		}
 		blk := c16Block(r, s.st)
-		ctor := r.Intn(4)
+		ctor := []int{0, 1, 2, 3, 5, 6}[r.Intn(6)]
 		op := kit.Op{K: "block", D: kit.Hex(serBlock(blk)), N: []int64{int64(ctor)}}
 		if ctor == 2 {
 			op.S = simio.DrawBenign(r).String()
@@ -241,7 +243,7 @@ func (s *c16) Gen(r *kit.Rng) (kit.Op, bool) {
 	// a further wrapper next to the existing ones
 	if len(s.objs) > 0 && len(s.objs) < 3 && r.Chance(1, 8) {
 		blk := c16Block(r, s.st)
-		ctor := r.Intn(4)
+		ctor := []int{0, 1, 2, 3, 5, 5, 6}[r.Intn(7)]
 		op := kit.Op{K: "block", D: kit.Hex(serBlock(blk)), N: []int64{int64(ctor)}}
 		if ctor == 2 {
 			op.S = simio.DrawBenign(r).String()
@@ -350,6 +352,32 @@ func (s *c16) Apply(o kit.Op) *kit.Violation {
 				return kit.V("construct:NewBlockFromReader-failed-on-benign-reader", "a reader that delivers every byte (plan %s) gave error %v", o.S, err)
 			}
 			s.st.Probe("block-from-faulty-but-complete-reader")
+			s.blk, s.own = b, b.MsgBlock()
+		case 5:
+			// from a *bytes.Buffer that the caller REUSES for the next block
+			// (Reset + Write), as network code does with its read buffer
+			if s.shared == nil {
+				s.shared = &bytes.Buffer{}
+			}
+			s.shared.Reset()
+			s.shared.Write(raw)
+			b, err := bchutil.NewBlockFromReader(s.shared)
+			if err != nil || b == nil {
+				return kit.V("construct:NewBlockFromReader-failed-on-benign-reader", "bytes.Buffer reader gave error %v", err)
+			}
+			s.st.Probe("block-from-reused-bytes.Buffer")
+			s.blk, s.own = b, b.MsgBlock()
+		case 6:
+			// from a bytes.Reader over a slice the caller overwrites afterwards
+			buf := append([]byte(nil), raw...)
+			b, err := bchutil.NewBlockFromReader(bytes.NewReader(buf))
+			for i := range buf {
+				buf[i] = 0xa5
+			}
+			if err != nil || b == nil {
+				return kit.V("construct:NewBlockFromReader-failed-on-benign-reader", "bytes.Reader gave error %v", err)
+			}
+			s.st.Probe("block-from-reader-over-overwritten-slice")
 			s.blk, s.own = b, b.MsgBlock()
 		case 4:
 			// a second wrapper over the message object another wrapper holds
